@@ -22,7 +22,17 @@ mod config;
 mod opt;
 mod output_diff;
 
+#[cfg(stylua_verif)]
+mod verif_hooks;
+
+#[cfg(stylua_verif)]
+static EXIT_CODE: verif_hooks::TracedAtomicI32 = verif_hooks::TracedAtomicI32::new("EXIT_CODE", 0);
+#[cfg(stylua_verif)]
+static UNFORMATTED_FILE_COUNT: verif_hooks::TracedAtomicU32 =
+    verif_hooks::TracedAtomicU32::new("UNFORMATTED_FILE_COUNT", 0);
+#[cfg(not(stylua_verif))]
 static EXIT_CODE: AtomicI32 = AtomicI32::new(0);
+#[cfg(not(stylua_verif))]
 static UNFORMATTED_FILE_COUNT: AtomicU32 = AtomicU32::new(0);
 
 enum FormatResult {
@@ -166,6 +176,11 @@ fn format_file(
         }
     } else {
         if formatted_contents != contents {
+            #[cfg(stylua_verif)]
+            verif_hooks::event(
+                "fs_write",
+                &format!("\"path\":{},\"len\":{}", verif_hooks::quote(&path.display().to_string()), formatted_contents.len()),
+            );
             fs::write(path, formatted_contents)
                 .with_context(|| format!("could not write to {}", path.display()))?;
         }
@@ -342,6 +357,22 @@ fn format(opt: opt::Opt) -> Result<i32> {
     // Create a thread to handle the formatting output
     pool.execute(move || {
         for output in rx {
+            #[cfg(stylua_verif)]
+            {
+                verif_hooks::role("out");
+                verif_hooks::yield_point(
+                    "recv",
+                    &format!(
+                        "\"kind\":{}",
+                        verif_hooks::quote(match &output {
+                            Ok(FormatResult::Complete) => "complete",
+                            Ok(FormatResult::SuccessBufferedOutput(_)) => "buffered",
+                            Ok(FormatResult::Diff(_)) => "diff",
+                            Err(_) => "error",
+                        })
+                    ),
+                );
+            }
             match output {
                 Ok(result) => match result {
                     FormatResult::Complete => (),
@@ -420,6 +451,8 @@ fn format(opt: opt::Opt) -> Result<i32> {
                     let config = config_resolver.load_configuration_for_stdin()?;
 
                     pool.execute(move || {
+                        #[cfg(stylua_verif)]
+                        verif_hooks::role("worker[stdin]");
                         let mut buf = String::new();
                         tx.send(
                             stdin()
@@ -484,8 +517,20 @@ fn format(opt: opt::Opt) -> Result<i32> {
 
                         let config = config_resolver.load_configuration(&path)?;
 
+                        #[cfg(stylua_verif)]
+                        verif_hooks::event(
+                            "dispatch",
+                            &format!("\"path\":{}", verif_hooks::quote(&path.display().to_string())),
+                        );
                         let tx = tx.clone();
                         pool.execute(move || {
+                            #[cfg(stylua_verif)]
+                            {
+                                let name = path.file_name().map(|x| x.to_string_lossy().to_string()).unwrap_or_default();
+                                verif_hooks::role(&format!("worker[{}]", name));
+                                verif_hooks::fault("format_file", &path);
+                                verif_hooks::yield_point("start", &format!("\"path\":{}", verif_hooks::quote(&path.display().to_string())));
+                            }
                             tx.send(
                                 format_file(&path, config, range, &opt, verify_output).map_err(
                                     |error| {
@@ -559,6 +604,8 @@ fn format(opt: opt::Opt) -> Result<i32> {
 }
 
 fn main() {
+    #[cfg(stylua_verif)]
+    verif_hooks::role("main");
     let opt = opt::Opt::parse();
     let output_format = opt.output_format;
     let should_use_color = opt.color.should_use_color_stderr();
@@ -615,6 +662,8 @@ fn main() {
         }
     };
 
+    #[cfg(stylua_verif)]
+    verif_hooks::event("exit", &format!("\"code\":{}", exit_code));
     std::process::exit(exit_code);
 }
 
